@@ -190,15 +190,74 @@ Proof.
   intros T' E. inversion E; subst T'. exact C'.
 Qed.
 
-(* configurations without joined-table hierarchies under the validity strategy: the machine theorems below
-   cover flat classes and single-table hierarchies; for joined hierarchies the hierarchy pass of the model
-   (Model/Core.v hier_pass) is validated by the correspondence check only *)
+(* ------------------------------------------------------------------ joined-table hierarchies
+   The child tables of a joined-table hierarchy are not validity tables of their own in the model (their rows
+   are closed by the hierarchy pass, by the next version of the key in the BASE table): hier_consistent says so.
+   It holds trivially for configurations without joined hierarchies (flat_hier).                              *)
+Definition hier_consistent (g : cfg) : Prop :=
+  forall cc t, In cc (g_classes g) -> In t (k_also cc) -> tab_valid g t = false.
+
 Definition flat_hier (g : cfg) : Prop := no_hierb g = true.
 
-Lemma step_all g s e : cfg_consistent g -> flat_hier g -> InvAll g s -> InvAll g (step g s e).
+Lemma flat_hier_consistent g : flat_hier g -> hier_consistent g.
+Proof.
+  unfold flat_hier, no_hierb, hier_consistent. intros H cc t Hcc Ht.
+  rewrite forallb_forall in H. specialize (H cc Hcc). destruct (k_also cc); [contradiction | discriminate].
+Qed.
+
+Lemma hier_closed_tab g T vt x :
+  hier_closed g T vt x = true -> exists cc, In cc (g_classes g) /\ In (hd 0 (vkey x)) (k_also cc).
+Proof.
+  unfold hier_closed. intro H. apply existsb_exists in H as [cc [Hcc H]].
+  apply andb_true_iff in H as [H _]. apply existsb_exists in H as [t [Ht E]].
+  apply Z.eqb_eq in E. exists cc. split; [exact Hcc | rewrite E; exact Ht].
+Qed.
+
+(* the hierarchy pass keeps the identities of all rows and touches rows of child tables only *)
+Lemma hier_pass_vt g s :
+  vids (d_vt (s_db (hier_pass g s))) = vids (d_vt (s_db s)) /\
+  (forall r', In r' (d_vt (s_db (hier_pass g s))) ->
+     In r' (d_vt (s_db s)) \/ exists cc, In cc (g_classes g) /\ In (hd 0 (vkey r')) (k_also cc)).
+Proof.
+  unfold hier_pass. destruct (no_hierb g); [split; [reflexivity | auto]|].
+  destruct (u_cur (s_uow s)) as [T|]; [|split; [reflexivity | auto]].
+  cbn [s_db d_vt]. split.
+  - unfold vids. rewrite map_map. apply map_ext. intro x.
+    destruct (hier_closed g T (d_vt (s_db s)) x); reflexivity.
+  - intros r' Hr'. apply in_map_iff in Hr' as [x [E Hx]].
+    destruct (hier_closed g T (d_vt (s_db s)) x) eqn:Hc; subst r'; [right | left; exact Hx].
+    apply (hier_closed_tab g T (d_vt (s_db s))). exact Hc.
+Qed.
+
+Lemma tbl_ok_hier g vt vt' :
+  hier_consistent g -> vids vt' = vids vt ->
+  (forall r', In r' vt' -> In r' vt \/ exists cc, In cc (g_classes g) /\ In (hd 0 (vkey r')) (k_also cc)) ->
+  tbl_ok g vt -> tbl_ok g vt'.
+Proof.
+  intros HC Ev Hr [U CH]. split.
+  - unfold pk_unique. fold (vids vt'). rewrite Ev. exact U.
+  - intros r' Hin Hv. destruct (Hr r' Hin) as [Hold|[cc [Hcc Ht]]].
+    + unfold chain_at. rewrite min_above_mai, Ev, <- min_above_mai. apply CH; assumption.
+    + rewrite (HC cc _ Hcc Ht) in Hv. discriminate.
+Qed.
+
+Lemma hier_pass_all g s : hier_consistent g -> InvAll g s -> InvAll g (hier_pass g s).
+Proof.
+  intros HC [H1 [[Hdb [Hc [VI [Hcache Herr]]]] Hn]].
+  destruct (hier_pass_parts g s) as [El [Ea [Et [Ec [Em [Eu [Ee _]]]]]]].
+  destruct (hier_pass_vt g s) as [Ev Hr].
+  split; [apply hier_pass_invw; exact H1|]. split.
+  - unfold Inv2. rewrite Em, Eu, Et, Ee.
+    split; [apply (tbl_ok_hier g (d_vt (s_db s))); assumption|].
+    split; [exact Hc|]. split; [exact VI|]. split; [|exact Herr].
+    intros T ET k. unfold cache_ok in Hcache. rewrite Ev. apply Hcache. exact ET.
+  - rewrite Eu. exact Hn.
+Qed.
+
+Lemma step_all g s e : cfg_consistent g -> hier_consistent g -> InvAll g s -> InvAll g (step g s e).
 Proof.
   intros CC FH H. destruct e; simpl.
-  - rewrite (hier_pass_flat g _ FH). apply flush_all; assumption.
+  - apply hier_pass_all; [exact FH|]. apply flush_all; assumption.
   - destruct H as [H1 [[Hdb [Hc [VI [Hcache Herr]]]] Hn]].
     split; [apply (step_invw g s Commit); exact H1|]. split; [|reflexivity].
     unfold Inv2; simpl. repeat split; try apply Hdb; try contradiction; try discriminate; auto.
@@ -209,7 +268,7 @@ Proof.
   - destruct ((g_versioning g || g_native g) && u_live (s_uow s)); exact H.
 Qed.
 
-Theorem run_all g evs : cfg_consistent g -> flat_hier g -> InvAll g (run g evs).
+Theorem run_all g evs : cfg_consistent g -> hier_consistent g -> InvAll g (run g evs).
 Proof.
   intros CC FH. unfold run. apply fold_left_inv; [apply InvAll_init|].
   intros a b Ha _. apply step_all; assumption.
@@ -217,12 +276,12 @@ Qed.
 
 (* ------------------------------------------------------------------ C03 at machine level *)
 Theorem reachable_tables_ok g evs :
-  cfg_consistent g -> flat_hier g ->
+  cfg_consistent g -> hier_consistent g ->
   pk_unique (d_vt (s_db (run g evs))) /\ chain_v g (d_vt (s_db (run g evs))).
 Proof. intros CC FH. destruct (run_all g evs CC FH) as [_ [[H _] _]]. exact H. Qed.
 
 (* the package never raises an error of its own on the version tables *)
-Theorem reachable_no_error g evs : cfg_consistent g -> flat_hier g -> s_err (run g evs) = false.
+Theorem reachable_no_error g evs : cfg_consistent g -> hier_consistent g -> s_err (run g evs) = false.
 Proof. intros CC FH. destruct (run_all g evs CC FH) as [_ [[_ [_ [_ [_ H]]]] _]]. exact H. Qed.
 
 (* chain_v on the sub-table of one validity table is the plain chain_ok of VTable.v *)
@@ -243,4 +302,15 @@ Proof.
   destruct (nth_in_or_default c (g_classes g) dflt_cls) as [Hin|Hd].
   - apply Bool.eqb_prop. apply H1. exact Hin.
   - rewrite Hd. simpl. apply negb_true_iff in H2. symmetry. exact H2.
+Qed.
+
+(* decidable form of hier_consistent, monitored by the correspondence check as well *)
+Definition hier_consistentb (g : cfg) : bool :=
+  forallb (fun cc => forallb (fun t => negb (tab_valid g t)) (k_also cc)) (g_classes g).
+
+Lemma hier_consistentb_spec g : hier_consistentb g = true -> hier_consistent g.
+Proof.
+  unfold hier_consistentb, hier_consistent. intros H cc t Hcc Ht.
+  rewrite forallb_forall in H. specialize (H cc Hcc). rewrite forallb_forall in H.
+  apply negb_true_iff. apply H. exact Ht.
 Qed.
